@@ -162,3 +162,20 @@ def _twoway_bulk_update_repeated_row(v):
     if u and u[0] == "BulkUpdateRecord" and len(u) > 2 and isinstance(u[2], list) and len(set(u[2])) < len(u[2]):
       return True
   return False
+
+
+def _c12_oddity(kind):
+  def match(v):
+    if not str(v.get("clause", "")).startswith("C12."):
+      return False
+    odd = v.get("context", {}).get("groupby_oddities") or {}
+    refs = [str(d[0]) for d in (v.get("detail") or []) if isinstance(d, list) and d]
+    return bool(refs) and all(kind in odd.get(r, []) for r in refs)
+  return match
+
+
+# the source cells of the group-by columns of every violating summary table hold ...
+MATCHERS["c12_error_cells_in_groupby"] = _c12_oddity("error")        # error values (default formula raised)
+MATCHERS["c12_bool_in_nonbool_groupby"] = _c12_oddity("bool")        # True / False left in a non-Bool column
+MATCHERS["c12_negative_ref_in_groupby"] = _c12_oddity("negref")      # a negative number in a Ref column
+MATCHERS["c12_list_in_plain_groupby"] = _c12_oddity("list")          # a list in a column of a non-list type
